@@ -86,8 +86,9 @@ class CUnit:
 
     def __init__(self, uid, props, fname, tu, filt=None, defines=(), requires=None, ensures=None,
                  cells=(), callees=None, options=None, subject=None, measured=None, arrays=None,
-                 param_assume=None, harness=None, post_hook=None, structs=None):
+                 param_assume=None, harness=None, post_hook=None, structs=None, pyobjs=()):
         self.structs = structs or {}
+        self.pyobjs = tuple(pyobjs)
         self.uid = uid
         self.props = props            # {'C03': None, 'C36': ['ub']}
         self.fname = fname
@@ -163,6 +164,12 @@ class CUnit:
                            init=z3.Store(z3.K(z3.IntSort(), z3.IntVal(0)), 0, t))
                 args.append(Ptr(ty, nm, z3.IntVal(0)))
                 setattr(e, nm, t)
+            elif ty.is_ptr() and nm in self.pyobjs:
+                # PyObject* parameter: an object identity of the abstract object model (dv/pyobj.py)
+                t = z3.Int(nm)
+                st.path.append(t >= 1)
+                args.append(Ptr(ty, "pyobj", t))
+                setattr(e, nm, t)
             elif ty.is_ptr() and nm in self.structs:
                 # pointer to a struct whose fields the contract describes: name -> (ctype, count) | ('ptr', target buffer)
                 for fname, spec in self.structs[nm].items():
@@ -197,6 +204,8 @@ class CUnit:
         for s, v in rets:
             e2 = Env(**e.__dict__)
             e2.result = v.t if isinstance(v, CV) else v
+            e2.result_null = isinstance(v, Ptr) and v.obj is None
+            e2.result_id = v.off if (isinstance(v, Ptr) and v.obj == "pyobj") else None
             if self.err_ghost:
                 e2.err = s.err
             e2.mem = dict(s.mem)
